@@ -17,9 +17,9 @@ import (
 
 func init() {
 	register(&propSpec{
-		ID:    "C10",
-		Level: "other",
-		Run:   runC10,
+		ID:          "C10",
+		Level:       "other",
+		Run:         runC10,
 		Explanation: "One necessary condition per variant family. R10.1 (variants with several execute units): the control unit's dispatch decision, or the execute unit's decision to start, is control-dependent on the kinds or addresses of older in-flight memory operations (a hold of a load/store while a conflicting store is pending: a test of IsMemoryRead/IsMemoryWrite or of MemoryRead/MemoryWrite addresses that leaves without dispatching, or a use of the per-address store scoreboard PendingWriteMemoryIntention); uses of the same calls that only feed a routing preference do not count. Its absence makes the property false for some program. R10.2 (in-order variants with one execute unit): the write unit performs a store when it accepts it and blocks for the memory latency, so no younger access is accepted in between. R10.3: the per-line locks pair up (R07.4), necessary for cross-core ordering. Does not decide whether an existing mechanism is sufficient (ordering of conflicting accesses is a schedule/value property).",
 		Assumptions: []string{},
 		Trusted:     []string{"go/types", "role resolution"},
